@@ -11,6 +11,10 @@ P = {
          "Spec/C01*.lean textbook formulas. Cauchy only on the exact branch of log1pexp (partial). DiscreteUniform::ln_f is proved WRONG (counterexample theorem; pinned by the suite, recorded).", "§4 C01"),
  'C02': ("Theorems: f = exp(ln_f), pdf/pmf wrappers (all carriers, 222 theorems); off-support => ln_pdf = -inf, pdf = 0 for every x incl. NaN/inf (carrier X); totality on the support for 22 laws over X incl. closed parameter boundaries, with counterexample theorems where the code is NaN; normalisation (Mathlib measure theory) for 14 laws. Tie: regeneration + correspondence; implementation-side check of the same clauses over special values and every 8-bit observation.",
          "Normalisation not proved for 15 laws (listed in Props/C02C.lean with the missing fact). Known findings: 0*ln 0 NaNs at p in {0,1}, InvGaussian/Gev support end points.", "§4 C02"),
+ 'C03': ("Theorems (166) with Mathlib calculus: HasDerivAt cdf (exp ln_f) for 16 continuous laws (closed forms; incomplete gamma/beta and erf forms via FTC lemmas proved from the integral definitions), monotonicity, range [0,1], limits 0 and 1 at the ends of the support, sf = 1 - cdf; discrete: cdf = running sum of the object's own pmf (Bernoulli, Geometric, Binomial, BetaBinomial, Categorical, Poisson partial), closed forms. Tie: regeneration + correspondence + implementation-vs-Spec at 1e-8 + oracle-free range/monotone/complement checks on the implementation.",
+         "Cauchy derivative only on the exact branch of log1pexp; Beta upper bound partial; InvGaussian/VonMises/KsTwoAsymptotic/Empirical/Mixture CDFs not translated. Known findings: Binomial/BetaBinomial mass loss when n exceeds the observation type; NegBinomial cdf at the type's MAX.", "§4 C03"),
+ 'C10': ("Theorems (605) over the IEEE-special-value carrier X: for 33 constructors `new θ = ok ↔ Valid θ` for ALL θ incl. NaN/±inf, fields carried exactly, errors name an offending argument (first offending one for 20; counterexample theorems for the 11 whose order differs), setters succeed iff in domain, change only their field, failure leaves the object unchanged, any accepted setter sequence = new, from_params∘emit_params = id. Tie: regeneration of the validation ladders + correspondence over the cross product of the special-value alphabet.",
+         "Categorical::new accepts zero weights (all-zero gives NaN log-weights): counterexample theorem. Mixture / kernel / NIW validators not covered here.", "§4 C10"),
  'C05': ("Theorems (66, no partial): for all 8 conjugate pairs posterior validity, closed-form hyper-parameter update (= Murphy 2007 for the Gaussian pairs), posterior(no data) = prior, data arm = statistic arm, sequential = batch, and Bayes' rule ln_f(post) = ln_f(prior) + sum ln_f(lik) - ln_m for every theta, all among generated functions. Tie: regeneration + correspondence + implementation-level relation checks.",
          "lgamma/lnBeta/ln_fact opaque in the identities.", "§4 C05"),
  'C06': ("Theorems (122): ln_m([]) = 0, permutation invariance, chain rule ln_pp = ln_m(x,y) - ln_m(x) for all 8 pairs, cached = uncached entry points, predictive normalisation (Bernoulli, Categorical, Gamma-Poisson series), integral form for Beta/UnitPowerLaw-Bernoulli and Gamma-Poisson. Tie: regeneration + correspondence + implementation-level chain-rule / permutation / empty checks.",
